@@ -52,6 +52,7 @@ KINDS = [
     ("subtree-full", "bootstrap", None),
     ("sweep", None, False),
     ("sweep", None, True),
+    ("subtree-support", None, True),
 ]
 TOL = 1e-9
 
@@ -70,6 +71,8 @@ def _case(draw, tier, shard):
         n = draw(st.sampled_from([3, 4, 2] if not out else ([3, 2] if quick else [3, 4, 2])))
     elif kind == "sweep":
         n = 2
+    elif kind == "subtree-support":
+        n = 3
     elif kind == "subtree-inner":
         n = draw(st.sampled_from([3, 2] if not out else ([2] if quick else [2, 3])))
     else:
@@ -165,6 +168,15 @@ def evaluate(case):
                 K, leaves = exact.transition_matrix(samplers["sub"].sample_tree, keys, trees, rng, comp, tags, budget_)
                 rc.check()
                 resid = exact.check_invariance(pi, K, keys, mts, comp, tags, TOL)
+            elif kind == "subtree-support":
+                # n = 3 with outliers: the full move is a recorded known finding (F7) as far as INVARIANCE goes, but it
+                # must still return clone trees over exactly the input data.  Only the rows of start trees that hold an
+                # outlier next to a clone with a descendant are enumerated (the states where pruning touches outliers).
+                comp = "subtree-full/%s" % case["proposal"]
+                rows = [i for i, m in enumerate(mts) if m.outliers and any(m.parent[c] != -1 for c in range(m.k))]
+                K, leaves = exact.transition_matrix(samplers["sub"].sample_tree, keys, trees, rng, comp, tags, budget_, rows=rows)
+                resid = 0.0
+                classes.append("rows=%d" % len(rows))
             elif kind == "sweep":
                 comp = "sweep"
                 K, leaves, resid = _sweep(world, samplers, case, keys, mts, trees, tags, budget_)
